@@ -44,6 +44,12 @@ def compile_one(job):
                 if is_bits:
                     storage = "::emboss::support::BitBlock< ::emboss::support::LittleEndianByteOrderer< %s>, 64>" % storage
                 f.write("template class ::%s::Generic%sView< %s>;\n" % (ns, s, storage))
+                # member templates are not covered by the explicit class instantiation: use each one once
+                f.write("void emboss_verif_use_%s(::%s::Generic%sView< %s> a, ::%s::Generic%sView< %s> b, ::emboss::support::TextStream* in, "
+                        "::emboss::support::TextOutputStream* out) {\n  (void)a.Equals(b); (void)a.UncheckedEquals(b);\n" % (s, ns, s, storage, ns, s, storage))
+                if not is_bits:
+                    f.write("  a.CopyFrom(b); a.UncheckedCopyFrom(b); (void)a.TryToCopyFrom(b);\n")
+                f.write("  (void)a.UpdateFromTextStream(in); a.WriteToTextStream(out, ::emboss::TextOutputOptions());\n}\n")
             f.write("int main() { return 0; }\n")
         r = subprocess.run([cxx, "-std=" + std, "-fsyntax-only", "-w", "-I" + core.REPO, "-I" + hdr_dir, src], capture_output=True, text=True)
         errs = [l for l in r.stderr.splitlines() if "error" in l][:3]
@@ -115,10 +121,27 @@ def main(args):
                            capture_output=True, text=True, env=dict(os.environ, PYTHONPATH=core.REPO), cwd=core.REPO)
         if r.returncode == 0:
             embs.append(t)
+    # borderline modules (corpus/borderline): rejected by the unchanged front end; if a change makes one accepted,
+    # its header must still compile ("accepted => compiles" at the boundary of the 64-bit gate)
+    bdir = os.path.join(cdir, "borderline")
+    borderline = sorted(os.path.basename(f) for f in glob.glob(os.path.join(bdir, "*.emb")))
+    n_rejected = 0
+    for t in borderline:
+        r = subprocess.run([os.sys.executable, os.path.join(core.REPO, "embossc"), "--output-path", inc, "--output-file", t + ".h", "--import-dir", core.REPO,
+                            os.path.join(bdir, t)], capture_output=True, text=True, env=dict(os.environ, PYTHONPATH=core.REPO), cwd=bdir)
+        if r.returncode == 0:
+            embs.append(t)
+        elif "Traceback" in r.stderr:
+            run.add(core.Obligation("compile.borderline-module-no-crash[%s]" % t, core.BFAIL, "embossc", 0.0, kind="bounded", model={"module": t, "stderr": r.stderr[-800:]},
+                                    replay={"reproduced": True, "inputs": t}))
+        else:
+            n_rejected += 1
+    run.add(core.Obligation("compile.borderline-modules-rejected-or-compiled", core.BPASS, "embossc", 0.0, kind="bounded",
+                            detail="%d of %d borderline modules rejected by the front end; the accepted ones are compiled below" % (n_rejected, len(borderline))))
     try:
         for emb in embs:
             hdr = open(os.path.join(inc, emb + ".h")).read()
-            src = open(os.path.join(cdir, emb)).read() if os.path.exists(os.path.join(cdir, emb)) else open(os.path.join(core.REPO, "testdata", emb)).read()
+            src = [open(os.path.join(d_, emb)).read() for d_ in (cdir, bdir, os.path.join(core.REPO, "testdata")) if os.path.exists(os.path.join(d_, emb))][0]
             m = re.search(r'\[\(cpp\) namespace:\s*"([^"]+)"\]', src)
             ns = m.group(1).strip(":") if m else "emboss_generated_code"
             structs = [s for s in re.findall(r"^class Generic(\w+)View final", hdr, re.M) if "EmbossReservedAnonymous" not in s]
@@ -127,7 +150,7 @@ def main(args):
             structs = [(s, top[s]) for s in structs if s in top]
             # structures with parameters cannot be explicitly instantiated over the buffer alone; keep them (the template takes Storage only)
             for cxx in ("clang++", "g++"):
-                for std in (("c++14",) if args.tier == "quick" and emb in testdata else ("c++11", "c++14", "c++17")):
+                for std in (("c++14",) if args.tier == "quick" and (emb in testdata or emb in borderline) else ("c++11", "c++14", "c++17")):
                     jobs.append((inc, emb, structs, ns, cxx, std))
         with multiprocessing.get_context("fork").Pool(16) as pool:
             res = pool.map(compile_one, jobs, chunksize=1)
